@@ -214,6 +214,76 @@ Fixpoint reachable (safe : bool) (name : string) (sp : space) (sn : spin)
               (succs name (targets_of prov t) t)
   end.
 
+(* ---------- the optional follow-up: func.evaluate_deltas on the result ----------
+   Fragment: deltas between two indices of one sort (all that simplify_unitary
+   generates for a tensor with both indices in one space): the first argument
+   is the preferred, the second the killable index and both carry the same
+   information.  The full function is the subject of C09 (Models/Deltas.v);
+   this fragment only serves to state which target indices it is given. *)
+Definition sub1 (a b x : index) : index := if index_eqb x a then b else x.   (* a -> b *)
+Definition subst_tens a b (t : tens) : tens :=
+  Tens (tkind t) (tname t) (tbks t) (map (sub1 a b) (tupper t)) (map (sub1 a b) (tlower t)).
+Definition subst_atom a b (x : atom) : atom :=
+  match x with
+  | ATens t => ATens (subst_tens a b t)
+  | ADelta i j => ADelta (sub1 a b i) (sub1 a b j)
+  | APoly p => APoly (map (fun qt : Q * list tens => (fst qt, map (subst_tens a b) (snd qt))) p)
+  | _ => x
+  end.
+Definition subst_fac a b (f : factor) : factor := (subst_atom a b (fst f), snd f).
+Definition trivial_delta (f : factor) : bool :=
+  match f with (ADelta i j, _) => index_eqb i j | _ => false end.
+(* expr.subs(a, b); KroneckerDelta(i, i) = 1 disappears *)
+Definition subst_term a b (t : term) : term :=
+  Term (tcoef t) (filter (fun f => negb (trivial_delta f)) (map (subst_fac a b) (tfacs t))).
+
+(* target indices as evaluate_deltas determines them when none are passed:
+   indices that occur on exactly one object (a power is one object) *)
+Fixpoint dedup_facs (fs : list factor) : list factor :=
+  match fs with
+  | [] => []
+  | f :: r => if existsb (fac_eqb f) r then dedup_facs r else f :: dedup_facs r
+  end.
+Definition obj_count (x : index) (fs : list factor) : nat :=
+  List.length (filter (fun f => imem x (fac_idx f)) (dedup_facs fs)).
+Definition targets_by_objects (t : term) : list index :=
+  filter (fun x => Nat.eqb (obj_count x (tfacs t)) 1) (inodup (term_idx t)).
+
+(* which substitution a delta triggers: kill the second index unless it is a
+   target, else the first unless it is a target *)
+Definition delta_action (tg : list index) (f : factor) : option (index * index) :=
+  match f with
+  | (ADelta i j, false) =>
+      if negb (same_sort i j) then None
+      else if negb (imem j tg) then Some (j, i)
+      else if negb (imem i tg) then Some (i, j)
+      else None
+  | _ => None
+  end.
+Fixpoint eval_deltas (fuel : nat) (tg : list index) (t : term) : term :=
+  match fuel with
+  | O => t
+  | S f => match find_first (delta_action tg) (tfacs t) with
+           | Some (a, b) => eval_deltas f tg (subst_term a b t)
+           | None => t
+           end
+  end.
+(* simplify_unitary(expr, name, evaluate_deltas=True) on one term:
+   as coded  - func.evaluate_deltas(res.sympy): targets re-derived from the result;
+   respecting - the expression's provided targets are passed on *)
+Definition simplify_ed_as_coded (fuel : nat) (name : string) (prov : option (list index)) (t : term)
+  : option term :=
+  match unitary_iter fuel name prov t with
+  | Some t' => Some (eval_deltas fuel (targets_by_objects t') t')
+  | None => None
+  end.
+Definition simplify_ed_respecting (fuel : nat) (name : string) (prov : option (list index)) (t : term)
+  : option term :=
+  match unitary_iter fuel name prov t with
+  | Some t' => Some (eval_deltas fuel (match prov with Some tg => tg | None => targets_by_objects t' end) t')
+  | None => None
+  end.
+
 (* ---------- verdicts used by the per-run correspondence (harness/props/c20.py) ----------
    one recursion level of the implementation against [unitary_pass]:
    [next] = the term handed to the next recursion level (None: returned here),
@@ -249,3 +319,8 @@ Definition check_case (name : string) (sp : space) (sn : spin) (prov : option (l
   (levels_codes name prov ts raised tgs,
    reachable false name sp sn prov fuel t0 tn,
    reachable true name sp sn prov fuel t0 tn).
+
+(* evaluate_deltas=True: the implementation's result for a one-term input
+   whose simplified form carries at most one delta, against the fragment *)
+Definition ed_code (fuel : nat) (prov : option (list index)) (t' out : term) : nat :=
+  if term_ceqb (eval_deltas fuel (targets_by_objects t') t') out then 0%nat else 1%nat.
